@@ -8,4 +8,5 @@ import "github.com/c4pt0r/kvql"
 // package-level-variable access hook of the instrumented kvql.
 func init() {
 	c19SetHook = func(h func(name string, write bool, site string)) { kvql.VerifHook = h }
+	c19SetHeapHook = func(h func(addr uintptr, site string)) { kvql.VerifHeapHook = h }
 }
